@@ -6,10 +6,63 @@
 //! the iovec (as family geo), then [live chunks, live bytes, every slice in live memory].
 use crate::iovw::{leak, World};
 use crate::util::*;
-use hcobs::verif_hooks::ParamEncoder;
+use hcobs::verif_hooks::{prod_params, ParamEncoder};
+use hcobs::Encoder;
+use owning_iovec::AnchoredSlice;
 use owning_iovec::OwningIovec;
 use std::io::Read;
 use std::num::NonZeroUsize;
+
+/// The real `Encoder` at the production limits, the hook wrapper (same code, caller-chosen limits) otherwise.
+enum Enc {
+    Real(Encoder<'static>),
+    Param(ParamEncoder<'static>),
+}
+impl Enc {
+    fn new(mi: usize, ms: usize) -> Enc {
+        if (mi, ms) == prod_params() {
+            Enc::Real(Encoder::new())
+        } else {
+            Enc::Param(ParamEncoder::new(mi, ms))
+        }
+    }
+    fn iovec(&mut self) -> &mut OwningIovec<'static> {
+        match self {
+            Enc::Real(e) => e.verif_iovec(),
+            Enc::Param(e) => e.iovec(),
+        }
+    }
+    fn state(&self) -> (usize, usize, bool) {
+        match self {
+            Enc::Real(e) => e.verif_state(),
+            Enc::Param(e) => e.state(),
+        }
+    }
+    fn encode(&mut self, d: &'static [u8]) {
+        match self {
+            Enc::Real(e) => e.encode(d),
+            Enc::Param(e) => e.encode(d),
+        }
+    }
+    fn encode_copy(&mut self, d: &[u8]) {
+        match self {
+            Enc::Real(e) => e.encode_copy(d),
+            Enc::Param(e) => e.encode_copy(d),
+        }
+    }
+    fn encode_anchored(&mut self, s: AnchoredSlice) {
+        match self {
+            Enc::Real(e) => e.encode_anchored(s),
+            Enc::Param(e) => e.encode_anchored(s),
+        }
+    }
+    fn finish(self) -> OwningIovec<'static> {
+        match self {
+            Enc::Real(e) => e.finish(),
+            Enc::Param(e) => e.finish(),
+        }
+    }
+}
 
 pub fn run(line: &str) -> Obs {
     let t: Vec<&str> = line.split_whitespace().collect();
@@ -17,10 +70,10 @@ pub fn run(line: &str) -> Obs {
     let ms: usize = t[1].parse().unwrap();
     let mut w = World::fresh();
     let mut obs: Obs = Vec::new();
-    let mut enc: Option<ParamEncoder<'static>> = None;
+    let mut enc: Option<Enc> = None;
     let mut done: Option<OwningIovec<'static>> = None;
     // construction is the first observed step
-    match catch(|| ParamEncoder::new(mi, ms)) {
+    match catch(|| Enc::new(mi, ms)) {
         Ok(e) => {
             enc = Some(e);
             obs.push(vec![1]);
